@@ -15,3 +15,32 @@ SPECS["C07"] = {
     "not_covered": [],
     "assumptions": ["Python ints are mathematical integers; // and % are floor division for positive divisors"],
 }
+
+
+def _view_keys(methods, classes=None, widths=(1, 2, 4)):
+    from contracts import util_stream as us
+    out = []
+    for n in (classes or us.ALL):
+        cls = us.CLASSES[n]["cls"]
+        if n == "StreamReversed":
+            for w in widths:
+                out += [f"{cls}.{m}[w={w}]" for m in methods]
+        else:
+            out += [f"{cls}.{m}" for m in methods]
+    return out
+
+
+_VIEW_METHODS = ["read", "read#None", "readall", "seek", "seek#default-whence", "tell"]
+_SECTOR_READ = ["smpl_extract.util.sector:SectorStream._read", "smpl_extract.util.fat:FileStream._read",
+                "smpl_extract.alcohol.mdf:MdfStream._read"]
+
+SPECS["C08"] = {
+    "level": "proof",
+    "level_text": "every view class (offset window, plain wrapper, sector stream, sector-chained file, MODE1/2352 user-data view, sample-reversed view) is proved to refine the read-only-file contract w.r.t. its logical content: read returns exactly the logical bytes clipped at the end and advances by the bytes returned, seek clamps to [0,len], tell returns the position, readall reads to the end (with termination) - for views of any size, any sector length, any chain, any substream cursor; nesting follows by induction because each proof uses only the same contract of the substream. Histories are covered by the per-call contracts plus the proved invariant 0 <= position <= length",
+    "level_note": "trusted: pyvc engine, z3/cvc5; base io objects satisfy the ROF contract (assumed); numpy frombuffer/reshape/flip/flatten/tobytes contracts (assumed) for the reversed view; StreamReversed proved for sample widths 1, 2, 4 (symbolic width is nonlinear: undecided, repo uses 1 and 2)",
+    "contracts": _SECTOR_READ + _view_keys(_VIEW_METHODS),
+    "bounded": [("contracts.util_stream", k) for k in _view_keys(["read", "seek"])],
+    "trusted_base": ["pyvc VC generator and its built-in models", "z3 5.1.0 / cvc5 1.0.3"],
+    "not_covered": ["views over an empty window (end_of_file == 0): the property speaks of non-empty views"],
+    "assumptions": ["nesting of views: induction on depth on paper (each proof assumes only the ROF contract of its substream)"],
+}
